@@ -537,6 +537,12 @@ HTPcreate(filerec_t *file_rec, /* IN: File record to store info in */
     if (file_rec == NULL || (tag == DFTAG_NULL || tag == DFTAG_WILDCARD) || ref == DFREF_WILDCARD)
         HGOTO_ERROR(DFE_ARGS, FAIL);
 
+    /* Refuse a tag/ref that is already in the DD list BEFORE a free DD is
+       taken (and written) for it */
+    if (HTIfind_dd(file_rec, tag, ref, &dd_ptr, DF_FORWARD) != FAIL)
+        HGOTO_ERROR(DFE_DUPDD, FAIL);
+    dd_ptr = NULL;
+
     if (HTIfind_dd(file_rec, (uint16)DFTAG_NULL, (uint16)DFTAG_WILDCARD, &dd_ptr, DF_FORWARD) == FAIL) {
         if (HTInew_dd_block(file_rec) == FAIL) {
             HGOTO_ERROR(DFE_NOFREEDD, FAIL);
@@ -1905,6 +1911,7 @@ HTIregister_tag_ref(filerec_t *file_rec, dd_t *dd_ptr)
     tag_info  *tinfo_ptr;                        /* pointer to the info for a tag */
     tag_info **tip_ptr;                          /* ptr to the ptr to the info for a tag */
     uint16     base_tag  = BASETAG(dd_ptr->tag); /* the base tag for the tag tree */
+    int        new_tag   = FALSE;                /* tag info created by this call? */
     int        ret_value = SUCCEED;
 
     HEclear();
@@ -1914,6 +1921,7 @@ HTIregister_tag_ref(filerec_t *file_rec, dd_t *dd_ptr)
         if ((tinfo_ptr = (tag_info *)calloc(1, sizeof(tag_info))) == NULL)
             HGOTO_ERROR(DFE_NOSPACE, FAIL);
         tinfo_ptr->tag = base_tag;
+        new_tag        = TRUE;
 
         /* Insert the tag node into the tree */
         tbbtdins(file_rec->tag_tree, (void *)tinfo_ptr, NULL);
@@ -1951,8 +1959,12 @@ HTIregister_tag_ref(filerec_t *file_rec, dd_t *dd_ptr)
 done:
     if (ret_value == FAIL) { /* Error condition cleanup */
 
-        if ((tinfo_ptr != NULL) && (tinfo_ptr->d != NULL))
+        /* only undo what this call set up: the dynarray of a tag that was
+           already in the tree holds the DDs of its other refs */
+        if (new_tag && (tinfo_ptr != NULL) && (tinfo_ptr->d != NULL)) {
             DAdestroy_array(tinfo_ptr->d, 0);
+            tinfo_ptr->d = NULL;
+        }
     }
 
     return ret_value;
